@@ -1,4 +1,5 @@
 import GlyProofs.Front.WalkDen
+import GlyProofs.Front.CreateLemmas
 /-
   C16 — Structural queries agree with the structure. (Property theorems only.)
 -/
@@ -45,5 +46,78 @@ theorem C16_leaves_le_size (F : GF) : leaves F ≤ F.size := by
     cases kids with
     | nil => simp only [leaves, GF.size]; omega
     | cons l' n' k' r' => simp only [leaves, GF.size] at *; omega
+
+/-! ### Node matchers of `count` (glycan.py: recipe_equality) -/
+
+open Gly.Model in
+/-- `no=True`: the first SAC entries of the two recipes are equal. -/
+def matchBasic (g q : Recipe) : Bool :=
+  match firstOfType g Gen.frontCfg.tSAC, firstOfType q Gen.frontCfg.tSAC with
+  | some a, some b => a == b
+  | _, _ => false
+
+/-- `some=True`: every entry of the query's recipe occurs in the glycan residue's recipe. -/
+def matchSome (g q : Recipe) : Bool := q.all (fun x => g.contains x)
+
+def sacCount (r : Recipe) : Nat := r.countP (fun x => x.2 == Gen.frontCfg.tSAC)
+
+open Gly.Model in
+theorem firstOfType_mem (r : Recipe) (ty : Nat) (v : List Char) (h : firstOfType r ty = some v) : (v, ty) ∈ r := by
+  induction r with
+  | nil => simp [firstOfType] at h
+  | cons x xs ih =>
+    rw [firstOfType_cons] at h
+    cases hx : (x.2 == ty)
+    · simp only [hx] at h; exact List.mem_cons_of_mem _ (ih h)
+    · simp only [hx, if_true] at h
+      have : x = (v, ty) := by
+        obtain ⟨a, b⟩ := x
+        simp at hx h; subst hx h; rfl
+      rw [this]; exact List.mem_cons_self
+
+open Gly.Model in
+theorem firstOfType_unique (r : Recipe) (ty : Nat) (v : List Char) (hm : (v, ty) ∈ r)
+    (h1 : r.countP (fun x => x.2 == ty) = 1) : firstOfType r ty = some v := by
+  induction r with
+  | nil => simp at hm
+  | cons x xs ih =>
+    rw [firstOfType_cons]
+    cases hx : (x.2 == ty)
+    · simp only [Bool.false_eq_true, if_false]
+      have hm' : (v, ty) ∈ xs := by
+        rcases List.mem_cons.mp hm with e | e
+        · rw [← e] at hx; simp at hx
+        · exact e
+      have : xs.countP (fun x => x.2 == ty) = 1 := by
+        have := h1; rw [List.countP_cons, hx] at this; simpa using this
+      exact ih hm' this
+    · simp only [hx, if_true]
+      have hz : xs.countP (fun x => x.2 == ty) = 0 := by
+        have := h1; rw [List.countP_cons, hx] at this; simpa using this
+      rcases List.mem_cons.mp hm with e | e
+      · rw [← e]
+      · have : 0 < xs.countP (fun x => x.2 == ty) := List.countP_pos_iff.mpr ⟨(v, ty), e, by simp⟩
+        omega
+
+open Gly.Model in
+/-- Making the functional-group matching stricter (`basic` → `some`) never adds a match **for residues written with one
+    sugar token** (`_partial`: the hypothesis `sacCount g = 1` is not granted by the property) … -/
+theorem C16_some_le_basic_partial (g q : Recipe) (hq : (firstOfType q Gen.frontCfg.tSAC).isSome = true)
+    (hg : sacCount g = 1) (h : matchSome g q = true) : matchBasic g q = true := by
+  obtain ⟨b, hb⟩ := Option.isSome_iff_exists.mp hq
+  have hmq := firstOfType_mem q _ b hb
+  have hmg : (b, Gen.frontCfg.tSAC) ∈ g := by
+    have := List.all_eq_true.mp h _ hmq
+    simpa using this
+  have := firstOfType_unique g _ b hmg hg
+  simp [matchBasic, this, hb]
+
+/-- … and it does for residues written with two (`ManHep`, `LDManHep`, …) queried with their second token: `some`
+    matches, `basic` does not (predicted from this Model, then observed on the real code: known finding). -/
+theorem C16_some_gt_basic_counterexample :
+    let g : Recipe := [("Man".toList, Gen.frontCfg.tSAC), ("Hep".toList, Gen.frontCfg.tSAC)]
+    let q : Recipe := [("Hep".toList, Gen.frontCfg.tSAC)]
+    matchSome g q = true ∧ matchBasic g q = false := by
+  decide +kernel
 
 end Gly.Props.C16
